@@ -60,7 +60,11 @@ func genC05(r *Rnd, t Tier) *Case {
 			case 4, 5:
 				ops = append(ops, Op{Kind: "rl.tryreserve", N: k, Dur: pick(r, 0, slot-1, slot, slot+1, time.Duration(r.Range(0, 5))*slot, time.Duration(r.Range(0, 5))*slot-1, -1)})
 			case 6:
-				ops = append(ops, Op{Kind: "rl.acquire", N: k, Dur: pick(r, 0, slot, time.Duration(r.Range(0, 4))*slot, time.Duration(r.Range(0, 4))*slot+1)})
+				if r.P(0.3) {
+					ops = append(ops, Op{Kind: "rl.acquire_nomax", N: k}) // AcquirePermits: waits as long as it takes
+				} else {
+					ops = append(ops, Op{Kind: "rl.acquire", N: k, Dur: pick(r, 0, slot, time.Duration(r.Range(0, 4))*slot, time.Duration(r.Range(0, 4))*slot+1)})
+				}
 			case 7:
 				if !concurrent {
 					ops = append(ops, Op{Kind: "exec", Entry: pick(r, EnGet, EnGetExec)})
@@ -158,8 +162,11 @@ func limiterOps(c *checkCtx) []rlOp {
 			case "rl.tryreserve":
 				op.maxWait = clientOp.Dur
 				op.out = time.Duration(e.A)
-			case "rl.acquire":
+			case "rl.acquire", "rl.acquire_nomax":
 				op.maxWait = clientOp.Dur
+				if e.Str == "rl.acquire_nomax" {
+					op.maxWait = -1
+				}
 				if e.A == 1 {
 					op.out = -2 // granted; wait not returned
 				} else {
@@ -258,7 +265,7 @@ func checkC05(c *checkCtx) {
 			want := m.request(op.t, op.k, op.maxWait)
 			got := op.out
 			switch {
-			case op.kind == "rl.acquire" || op.kind == "exec":
+			case op.kind == "rl.acquire" || op.kind == "rl.acquire_nomax" || op.kind == "exec":
 				granted := got != -1
 				if granted != (want != -1) {
 					c.fail("C05.model", "refusal", fmt.Sprintf("%s at t=%v for %d permit(s) with max wait %v: granted=%v but the wait is %v", op.kind, op.t, op.k, op.maxWait, granted, want))
@@ -401,7 +408,7 @@ func checkLimiterLinearizable(c *checkCtx, p *PolicySpec, ops []rlOp) {
 	model := nm.ToModel()
 	var hist []porcupine.Operation
 	for _, op := range ops {
-		blocking := op.kind == "rl.acquire" || op.kind == "exec"
+		blocking := op.kind == "rl.acquire" || op.kind == "rl.acquire_nomax" || op.kind == "exec"
 		out := op.out
 		if blocking && out != -1 {
 			out = 0
